@@ -52,7 +52,24 @@ def r1_mirror(ctx):
 def r2_colour_blind(ctx):
     rule = 'C18.R2-colour-blind'
     facts = ctx.facts
-    name = EV + 'player_material_score'
+    # the per-colour material function is whatever board_material_score subtracts: f(.., White, ..) - f(.., Black, ..)
+    n2 = EV + 'board_material_score'
+    ev_fns = {n for n in facts.fns if n.startswith(EV) and n != n2 and facts.fns[n].crate == 'chess'}
+    outs2 = Engine(facts, readonly=ev_fns).run(n2)
+    ctx.touch(n2)
+    rets2 = [o for o in outs2 if o.kind == 'return']
+    name, colp, ok_diff = None, None, False
+    if len(rets2) == 1:
+        v = rets2[0].value
+        if v[0] == 'bin' and v[1] == 'Sub' and v[2][0] == 'call' and v[3][0] == 'call' and v[2][1] == v[3][1] and len(v[2][2]) == len(v[3][2]):
+            wpos = [i for i, (x, y) in enumerate(zip(v[2][2], v[3][2])) if x != y]
+            if len(wpos) == 1 and v[2][2][wpos[0]] == WHITE and v[3][2][wpos[0]] == BLACK:
+                name, colp, ok_diff = v[2][1], wpos[0] + 1, True
+    ctx.ob(rule, n2, 'score(White) - score(Black)', ok_diff, found=show(rets2[0].value) if rets2 else None,
+           expected='f(board, White, ..) - f(board, Black, ..) with all other arguments equal')
+    if name is None:
+        return
+    CP = ('p', colp)
     pieces_fn = BOARD + '::pieces'
     eng = Engine(facts, readonly={pieces_fn, EV + 'is_endgame', 'chess::board::piece_set::PieceSet::locate'}, max_paths=20000)
     outs = eng.run(name)
@@ -61,7 +78,7 @@ def r2_colour_blind(ctx):
     uses = set()
     table_by_colour = {}
     for o in outs:
-        col = cd.get(pin(dict(o.conds).get(('discr', ('p', 2)))))
+        col = cd.get(pin(dict(o.conds).get(('discr', CP))))
         terms = [a for a, v in o.conds] + [o.value] if o.value else [a for a, v in o.conds]
         for e in o.events:
             if e[0] == 'call':
@@ -72,13 +89,13 @@ def r2_colour_blind(ctx):
             if t is None:
                 continue
             for s in subterms(t):
-                if s == ('p', 2):
+                if s == CP:
                     continue
-                if s[0] == 'discr' and s[1] == ('p', 2):
+                if s[0] == 'discr' and s[1] == CP:
                     uses.add('match colour')
-                elif s[0] == 'call' and ('p', 2) in s[2]:
+                elif s[0] == 'call' and CP in s[2]:
                     uses.add('arg of ' + s[1])
-                elif ('p', 2) in s[1:] and s[0] not in ('discr', 'call'):
+                elif CP in s[1:] and s[0] not in ('discr', 'call'):
                     uses.add('other: ' + show(s)[:60])
                 if s[0] == 'named' and 'BONUS_INDEX' in s[1]:
                     table_by_colour.setdefault(col, set()).add(s[1].rsplit('::', 1)[-1])
@@ -113,7 +130,7 @@ def r2_colour_blind(ctx):
     for o in outs:
         if o.kind != 'backedge' or not o.locals:
             continue
-        col = cd.get(pin(dict(o.conds).get(('discr', ('p', 2)))))
+        col = cd.get(pin(dict(o.conds).get(('discr', CP))))
         for l, t in o.locals.items():
             if any(s[0] == 'named' and s[1].endswith('MATERIAL_VALUES') for s in subterms(t)) and t[0] == 'bin':
                 s = show(t)
@@ -126,17 +143,6 @@ def r2_colour_blind(ctx):
     ctx.ob(rule, name, 'per-piece summand identical for both colours up to the mirrored index table', same,
            found={k: sorted(v)[:2] for k, v in upd.items()}, expected='material += MATERIAL_VALUES[p] + BONUS_TABLES[p][eg][IDX[i]] for both colours',
            why='any colour-dependent term in the sum breaks score(mirror(p)) == -score(p)')
-    # board_material_score = score(White) - score(Black)
-    n2 = EV + 'board_material_score'
-    outs = Engine(facts, readonly={name}).run(n2)
-    ctx.touch(n2)
-    rets = [o for o in outs if o.kind == 'return']
-    ok = False
-    if len(rets) == 1:
-        v = rets[0].value
-        if v[0] == 'bin' and v[1] == 'Sub' and v[2][0] == 'call' and v[3][0] == 'call':
-            ok = v[2][1] == name and v[3][1] == name and v[2][2][1] == WHITE and v[3][2][1] == BLACK and v[2][2][0] == v[3][2][0]
-    ctx.ob(rule, n2, 'score(White) - score(Black)', ok, found=show(rets[0].value) if rets else None, expected='player_material_score(board, White) - player_material_score(board, Black)')
 
 
 def swap_colours(t):
